@@ -229,7 +229,17 @@ func rhSyncProfile(np, nc int, podSize, ctrSize uint32, spare int) {
 //verif:instances 36
 //verif:preempt 0
 //verif:expect-cover delivered failed-cleanly
-func H_C09_sync_profiles() {
+func H_C09_sync_profiles() { syncProfiles() }
+
+// H_C08_snapshot_complete: the same profiles seen from C08: the snapshot a registering plugin receives contains
+// every container of the runtime exactly once also when it has to be split over several messages.
+//verif:property C08
+//verif:instances 36
+//verif:preempt 0
+//verif:expect-cover delivered failed-cleanly
+func H_C08_snapshot_complete() { syncProfiles() }
+
+func syncProfiles() {
 	sizes := [...]uint32{1, 300 << 10, 600 << 10, 1100 << 10, 2100 << 10, 4 << 20}
 	nps := [...]int{0, 1, 2, 5, 9, 30}
 	i := instance()
